@@ -57,7 +57,8 @@ CHECKS = {
             "PROVES by term rewriting that every reflected one-liner and every operator-second handler computes "
             "f(other, self, alpha) with the right order, sign, transposes and alpha placement for all operand values; "
             "(T6) with A.solve(X) = A^-1 X as a primitive, every evaluable solve_triangular definition returns A^-1 R "
-            "for left=True and R A^-1 for left=False, or raises; (T7) a unary elementwise map applied factor by factor "
+            "for left=True and R A^-1 for left=False, or raises; (T8) the operator-second handler of a non-commutative function does not hand its operands, unswapped, to "
+            "the operator-first implementation; (T7) a unary elementwise map applied factor by factor "
             "to a Kronecker-structured operator is a multiplicative function (abs, sqrt, inverse ...), never exp/log. "
             "NOT decided: that each first-operand handler's value equals torch on the dense tensor (numerical).",
             TRUST + "; operators' +, @, mul are true sum/product/elementwise product (C01/C02).",
@@ -132,7 +133,8 @@ CHECKS = {
             "the first factorization, the documented trace_mode escape); (F) exhausting the tries cannot reach a normal return and raises "
             "NotPSDError, the NaN screen dominates the retries, every perturbation is followed by a NumericalWarning; "
             "(D) the addend depends on info (per batch member) and is the difference new - previous jitter, defaults "
-            "come from settings.cholesky_jitter(A.dtype) / cholesky_max_tries; (U) upper transposes exactly on "
+            "come from settings.cholesky_jitter(A.dtype) / cholesky_max_tries and are installed under a test for None, so an "
+            "explicit jitter=0.0 is honoured; (U) upper transposes exactly on "
             "request; (T) the retry loop makes exactly max_tries perturbed attempts and the k-th attempt adds jitter*10^k "
             "(linear integer arithmetic on the range() bounds and on the exponent). NOT decided: that the factor is numerically the Cholesky factor of the perturbed matrix.",
             TRUST + "; cholesky_ex info semantics.", "DESIGN.md section 3, C16"),
@@ -148,7 +150,9 @@ CHECKS = {
             "re-assigned; a 'not yet cached' guard probes the cache with the same key shape as the "
             "write it protects (W, vacuous-guard clause); no method writes in place into a tensor held by self or "
             "obtained from a cached query (M; the C13 ownership proof restricted to operator state); containers "
-            "reachable from a denotation attribute are not mutated outside __init__ (D); every cache-hit shortcut (try pop/get_from_cache ... except CachingError) whose cache name has "
+            "reachable from a denotation attribute are not mutated outside __init__ (D); (T) a result is stored into the cache of ANOTHER operator only in code reachable from the reviewed "
+            "transplant sites (add_low_rank, cat_rows) - new sites are reported for review, since whether a carried-over "
+            "factorization is valid for the new matrix is algebra this analysis cannot do; every cache-hit shortcut (try pop/get_from_cache ... except CachingError) whose cache name has "
             "a writer returns the same components as its miss path (H; today both such shortcuts are dormant). Tests "
             "build a fresh operator per query, so no history is ever exercised. NOT decided: that a "
             "cached or transplanted factorization is numerically valid for the (new) matrix.",
@@ -185,7 +189,8 @@ CHECKS = {
             "float64 product is not rounded through float32; (Q) an argument-less squeeze() whose result is used as a "
             "subscript index sits behind an explicit element-count test (else the size-1 case loses a dimension); (W) a product / densification "
             "kernel never writes in place into storage of the operator or of the operand (the second product would "
-            "differ from the first); (O) operand order at the product sites of the matmul / rmatmul families. "
+            "differ from the first); (O) operand order at the product sites of the matmul / rmatmul families; (T) the transpose product "
+            "of a composite goes through the transpose products of its components (a diagonal component excepted). "
             "Decided for all values, shapes and nestings at once. NOT "
             "decided: numerical agreement of matmul / transpose / to_dense (FFT, Kronecker reshapes, interpolation).",
             TRUST, "DESIGN.md section 3, C01"),
@@ -210,7 +215,9 @@ CHECKS = {
             "degree 0/1/2/unknown per value, bilinear ops add degrees, concatenations paired segment-wise) finds no "
             "product whose two operands both depend on the same upstream gradient: g*g == g and 1*x == x for the "
             "all-ones gradient of .sum().backward(), so the tests cannot see it; (P9) the contributions of two upstream "
-            "gradients are accumulated independently, never one only on the branch where the other is None; (B) every hand-written "
+            "gradients are accumulated independently, never one only on the branch where the other is None; (P10) the re-shaping of an upstream gradient is not gated by a "
+            "needs_input_grad test while a use can be reached around it; (T) the transpose-product rule of C01, since the rhs "
+            "gradient of Matmul is computed through _t_matmul; (B) every hand-written "
             "_bilinear_derivative is BILINEAR in (left_vecs, right_vecs): each non-zero returned entry value-depends on both "
             "and no product has both operands depending on the same one (the copy-and-paste slip left-for-right, invisible "
             "when tests pass left == right). PyTorch checks tuple length only on executed paths and the tests set "
@@ -251,7 +258,8 @@ CHECKS = {
             "divisions and a tolerance-controlled exit (M7); consumers of contour_integral_quad unpack by the producer's "
             "positions and multiply the weights with the shifted solves only (Q1); the un-shifted solve occupies the "
             "same leading rows in allocation, fill and split (Q2); `inverse` controls the extra K-multiplication with "
-            "the right polarity (Q3); non-positive eigenvalue estimates fall back to the diagonal (Q4). NOT decided "
+            "the right polarity (Q3); non-positive eigenvalue estimates fall back to the diagonal (Q4); the threshold below which a column counts "
+            "as zero does not depend on the right-hand side (M8: linearity in b). NOT decided "
             "(numerical): solve accuracy, quadrature accuracy, sqrt_inv_matmul twice = A^{-1}, CIQ sample covariance.",
             TRUST, "DESIGN.md section 3, C11"),
 }
